@@ -4,6 +4,69 @@ use crate::rng::{ScriptRng, SplitMix, WordCapExceeded};
 use crate::sampler::{Sample, Sampler};
 use std::cell::RefCell;
 use std::panic::{AssertUnwindSafe, catch_unwind};
+use std::sync::atomic::{AtomicBool, AtomicU64, Ordering::Relaxed};
+use std::sync::{Arc, Mutex};
+
+/// Per-thread heartbeat of calls into the code under test. A call that never returns and draws no
+/// random words cannot be cancelled; the monitor (see `start_hang_monitor`) reports it and ends the run.
+pub struct Heartbeat {
+    in_subject: AtomicBool,
+    count: AtomicU64,
+    /// threads whose calls are timed by their own watchdog (worker pool, constructor threads)
+    managed: AtomicBool,
+    label: Mutex<String>,
+}
+
+static REGISTRY: Mutex<Vec<Arc<Heartbeat>>> = Mutex::new(Vec::new());
+
+thread_local! {
+    static HB: Arc<Heartbeat> = {
+        let h = Arc::new(Heartbeat { in_subject: AtomicBool::new(false), count: AtomicU64::new(0), managed: AtomicBool::new(false), label: Mutex::new(String::new()) });
+        REGISTRY.lock().unwrap().push(h.clone());
+        h
+    };
+}
+
+/// name what this thread is exploring (shown when a call into the code under test never returns)
+pub fn set_label(s: &str) {
+    HB.with(|h| *h.label.lock().unwrap() = s.to_string());
+}
+
+/// calls on this thread are timed by another watchdog
+pub fn set_managed(b: bool) {
+    HB.with(|h| h.managed.store(b, Relaxed));
+}
+
+/// Watch all threads: a call into the code under test that has not returned after `limit` ends the run with
+/// a violation of `prop` (or the matching known finding); evidence written so far by the check is lost, a
+/// minimal evidence file says so.
+pub fn start_hang_monitor(prop: &'static str, tier: String, limit: std::time::Duration) {
+    std::thread::spawn(move || {
+        let mut seen: std::collections::HashMap<usize, (u64, std::time::Instant)> = Default::default();
+        loop {
+            std::thread::sleep(std::time::Duration::from_millis(250));
+            let regs: Vec<Arc<Heartbeat>> = REGISTRY.lock().unwrap().clone();
+            for h in &regs {
+                let id = Arc::as_ptr(h) as usize;
+                if h.managed.load(Relaxed) || !h.in_subject.load(Relaxed) {
+                    seen.remove(&id);
+                    continue;
+                }
+                let c = h.count.load(Relaxed);
+                let now = std::time::Instant::now();
+                let e = seen.entry(id).or_insert((c, now));
+                if e.0 != c {
+                    *e = (c, now);
+                    continue;
+                }
+                if now.duration_since(e.1) > limit {
+                    let label = h.label.lock().unwrap().clone();
+                    crate::report::hang_exit(prop, &tier, &label, limit.as_secs_f64());
+                }
+            }
+        }
+    });
+}
 
 thread_local! {
     static LAST_PANIC: RefCell<String> = const { RefCell::new(String::new()) };
@@ -13,10 +76,19 @@ thread_local! {
 /// run `f` with panics attributed to the code under test (quiet); panics outside are harness bugs and are printed
 pub fn in_subject<T>(f: impl FnOnce() -> T) -> T {
     let prev = IN_SUBJECT.with(|c| c.replace(true));
+    if !prev {
+        HB.with(|h| {
+            h.count.store(h.count.load(Relaxed).wrapping_add(1), Relaxed);
+            h.in_subject.store(true, Relaxed);
+        });
+    }
     struct Reset(bool);
     impl Drop for Reset {
         fn drop(&mut self) {
             IN_SUBJECT.with(|c| c.set(self.0));
+            if !self.0 {
+                HB.with(|h| h.in_subject.store(false, Relaxed));
+            }
         }
     }
     let _r = Reset(prev);
